@@ -231,19 +231,51 @@ def twoPart (L : Int) : Loc → Bool
 def partsOK (L : Int) (l : Loc) : Bool :=
   !l.parts.isEmpty && l.parts.all fun p => decide (0 ≤ p.lo) && decide (p.lo < p.hi) && decide (p.hi ≤ L)
 
-/-- the record is not empty; the region lies in it (`start < end`, or `end < start` when it runs over
-    the origin — a region covering a whole circular record, `start = end`, is left to the
-    correspondence); every feature has non-empty parts inside the record; exons of a feature that does
-    not run over the origin fit into its hull (they do not overlap); a feature running over the origin
-    has one part on each side -/
+/-- one part moved by `k` -/
+def shiftPart (k : Int) (p : Part) : Part := ⟨p.lo + k, p.hi + k, p.strand⟩
+
+/-- the loop body of `offset_location` that brings one shifted part back into the record: reduced modulo the
+    record length, split at the origin when it runs over it -/
+def wrapPart (L : Int) (p : Part) : List Part :=
+  let s := p.lo % L
+  let e := (p.hi - 1) % L + 1
+  if 0 ≤ s && s < e && e ≤ L then [(⟨s, e, p.strand⟩ : Part)]
+  else [⟨s, L, p.strand⟩, ⟨0, e, p.strand⟩]
+
+/-- the pieces `offset_location` makes of a location before it merges abutting ones -/
+def rotPieces (L k : Int) (l : Loc) : List Part := l.parts.flatMap fun p => wrapPart L (shiftPart k p)
+
+/-- no piece abuts both its neighbours (three exons in a row each ending where the next starts: there the
+    merge step of `offset_location` itself drops bases — it keeps `previous.start`, not the start of what was
+    merged so far) -/
+def chainFree : List Part → Bool
+  | a :: b :: c :: rest => !(decide (a.hi = b.lo) && decide (b.hi = c.lo)) && chainFree (b :: c :: rest)
+  | _ => true
+
+/-- the rotation of `l` by `k` that `offset_location` performs is sound: all parts on one strand (abutting
+    pieces of different strands raise) and no chain of abutting pieces -/
+def rotOK (L k : Int) (l : Loc) : Bool :=
+  (match l.parts with
+   | [] => false
+   | p :: ps => ps.all (·.strand == p.strand)) && chainFree (rotPieces L k l)
+
+/-- the record is not empty; the region lies in it (`start < end`, or `0 < end ≤ start < L` when it runs over
+    the origin — `start = end`: all the way round); every feature has non-empty parts inside the record.  For a
+    region over the origin, where `offset_location` is at work: a feature that runs over the origin has one
+    part on each side of it, or is shorter than the record and `rotOK` for both offsets used (`-start`,
+    `L - start`); any other feature has exons that fit into its hull (they do not overlap) and is `rotOK` for the
+    offset `L - start` -/
 def wfInput (rd : RegionData) (rec : BioRecord) : Bool :=
   let L := rec.length
   decide (0 < L) &&
-  (if rd.crossesOrigin then decide (0 < rd.end) && decide (rd.end < rd.start) && decide (rd.start < L)
+  (if rd.crossesOrigin then decide (0 < rd.end) && decide (rd.end ≤ rd.start) && decide (rd.start < L)
    else decide (0 ≤ rd.start) && decide (rd.end ≤ L)) &&
   rec.features.all fun f =>
     partsOK L f.loc &&
-    (if bridgesOrigin f.loc then twoPart L f.loc else decide (f.loc.len ≤ f.loc.end - f.loc.start))
+    (!rd.crossesOrigin ||
+      (if bridgesOrigin f.loc then
+         twoPart L f.loc || (decide (f.loc.len ≠ L) && rotOK L (-rd.start) f.loc && rotOK L (L - rd.start) f.loc)
+       else decide (f.loc.len ≤ f.loc.end - f.loc.start) && rotOK L (L - rd.start) f.loc))
 
 /-! ### references go through one renumbering per kind -/
 
@@ -276,12 +308,14 @@ def FollowsLoadOrder (type : String) (num : BioFeature → Option Int) (fs : Lis
   ∀ g1 ∈ fs, ∀ g2 ∈ fs, g1.type = type → g2.type = type → ∀ m1 m2, num g1 = some m1 → num g2 = some m2 →
     pairLt (loadKey g1.loc) (loadKey g2.loc) = true → m1 < m2
 
-/-- the shape of an area's location: one forward part, or a forward pair over the origin -/
-def areaShape (L : Int) : Loc → Bool
+/-- the shape of an area's location: one forward part, or a forward pair over the origin (one that goes all
+    the way round a region over the origin starts where the region starts) -/
+def areaShape (L : Int) (rd : RegionData) : Loc → Bool
   | .simple p => p.strand == .fwd
   | .compound [a, b] =>
     a.strand == .fwd && b.strand == .fwd && decide (a.hi = L) && decide (b.lo = 0) && decide (0 < b.hi) &&
-    decide (b.hi ≤ a.lo) && decide (a.lo < L)
+    decide (b.hi ≤ a.lo) && decide (a.lo < L) &&
+    (decide (b.hi < a.lo) || !rd.crossesOrigin || decide (a.lo = rd.start))
   | _ => false
 
 def protoAreas (rd : RegionData) : List (Int × Loc) := (protoDict rd).map fun kv => (kv.1, kv.2.loc)
@@ -300,6 +334,53 @@ def linked (rd : RegionData) (rec : BioRecord) : Bool :=
   linkedKind "protocluster" (·.q.protoNumber) (protoAreas rd) rec &&
   linkedKind "cand_cluster" (·.q.candNumber) (candDict rd) rec &&
   linkedKind "subregion" (·.q.subNumber) (subDict rd) rec &&
-  (protoAreas rd ++ candDict rd ++ subDict rd).all fun a => areaShape rec.length a.2
+  (protoAreas rd ++ candDict rd ++ subDict rd).all fun a => areaShape rec.length rd a.2
+
+/-! ### the whole picture handed to `write_to_genbank` is consistent (hypothesis of `extract_reloads`) -/
+
+def nodupB : List Int → Bool
+  | [] => true
+  | x :: xs => !xs.contains x && nodupB xs
+
+/-- for one kind of area: every area of the region has a feature of the kind carrying its number, the kind's
+    features carry distinct numbers, and the areas lie inside the region -/
+def consistentKind (type : String) (num : BioFeature → Option Int) (areas : List (Int × Loc)) (rd : RegionData)
+    (rec : BioRecord) : Bool :=
+  (areas.all fun a => rec.features.any fun f => f.type == type && num f == some a.1) &&
+  nodupB ((ofType type rec.features).filterMap num) &&
+  areas.all fun a => insideRegion rec.length rd a.2
+
+def coreAreas (rd : RegionData) : List (Int × Loc) := (protoDict rd).map fun kv => (kv.1, kv.2.core)
+
+/-- `linked`, and: features are told apart by their `tag`; a feature running over the origin reaches from the
+    record's first to its last base; per kind of area the record's features and `RegionData` describe the same
+    areas (`consistentKind`); `proto_core` features carry the core location of the protocluster of their number,
+    which has the shape of an area location -/
+def consistent (rd : RegionData) (rec : BioRecord) : Bool :=
+  linked rd rec &&
+  nodupB (rec.features.map (·.tag)) &&
+  (rec.features.all fun f => !bridgesOrigin f.loc || (decide (f.loc.start = 0) && decide (f.loc.end = rec.length))) &&
+  consistentKind "protocluster" (·.q.protoNumber) (protoAreas rd) rd rec &&
+  consistentKind "cand_cluster" (·.q.candNumber) (candDict rd) rd rec &&
+  consistentKind "subregion" (·.q.subNumber) (subDict rd) rd rec &&
+  linkedKind "proto_core" (·.q.protoNumber) (coreAreas rd) rec &&
+  consistentKind "proto_core" (·.q.protoNumber) (coreAreas rd) rd rec &&
+  (coreAreas rd).all fun a => areaShape rec.length rd a.2
+
+/-- the `core_location` text of every written protocluster reads back (`location_from_string`) to a location
+    covering exactly the bases of the written `proto_core` feature with the same number (Prop form of `coresAgree`) -/
+def CoresAgree (fs : List BioFeature) : Prop :=
+  ∀ g ∈ fs, g.type = "protocluster" → ∃ t core, g.q.coreLoc = some t ∧ locFromString t = some core ∧
+    ∃ g' ∈ fs, g'.type = "proto_core" ∧ g'.q.protoNumber = g.q.protoNumber ∧ ∀ i, core.mem i = g'.loc.mem i
+
+/-- KF-C12-abutting-exons: a feature that `offset_location` has to re-assemble (one running over the origin, or
+    one after the origin whose end lands on the file's end) has three exons in a row each ending where the next
+    starts; the merge step keeps `previous.start` instead of the start of what it merged so far and drops bases -/
+def chainLoses (rd : RegionData) (rec : BioRecord) : Bool :=
+  let L := rec.length
+  rd.crossesOrigin && rec.features.any fun f =>
+    if bridgesOrigin f.loc then !chainFree (rotPieces L (-rd.start) f.loc)
+    else decide (0 ≤ f.loc.start) && decide (f.loc.end ≤ rd.end) && !offsetTrivial f.loc (L - rd.start) L &&
+         !chainFree (rotPieces L (L - rd.start) f.loc)
 
 end ASV.RegionExtract
